@@ -219,6 +219,10 @@ func doCliMatrix(c *core.Ctx, mflag string, avg bool, outmode, text string, nofi
 	c.Emit("C14.climatrix", core.Escape(shown), avgs, outmode, dumps, strconv.Itoa(exit), core.Escape(written))
 }
 
+// what strconv.ParseFloat accepts beyond decimals (inf / infinity with an optional sign, nan without; any case),
+// and near misses that it refuses
+var specialLFlags = []string{"inf", "+Inf", "-inf", "Infinity", "-INFINITY", "+infinity", "nan", "NaN", "+nan", "-nan", "infin", "in", "nanx"}
+
 var badLFlags = []string{"abc", "", "1,5", "0.5.1", "--", "1e", "½"}
 
 func spellings(thr float64) []string {
@@ -249,6 +253,12 @@ func cliCutCase(c *core.Ctx) {
 	if o.MaxTips > 12 {
 		o.MinTips, o.MaxTips = 3, 12
 	}
+	// a negative cutoff on trees whose branches all have a length: every branch is "greater than or equal", every
+	// tip is alone (a cutoff read as its absolute value, clamped to 0 or refused shows here)
+	negative := c.G.Chance(0.06)
+	if negative {
+		o.Lengths = 3
+	}
 	k := 1 + c.G.Intn(3)
 	var b strings.Builder
 	var first *core.N
@@ -272,9 +282,13 @@ func cliCutCase(c *core.Ctx) {
 	}
 	lflag := "omit"
 	switch r := c.G.Intn(100); {
+	case negative:
+		lflag = "v:" + []string{"-0.125", "-0.5", "-1", "-2.5", "-1e-1", "-37.5"}[c.G.Intn(6)]
 	case r < 10:
 	case r < 20:
 		lflag = "v:" + badLFlags[c.G.Intn(len(badLFlags))]
+	case r < 26:
+		lflag = "v:" + specialLFlags[c.G.Intn(len(specialLFlags))]
 	default:
 		thr := drawThreshold(c.G, first, o)
 		if o.LenDenom != 8 {
